@@ -70,10 +70,11 @@ type c11Case struct {
 	cause      string // close order frame dropws dropin dropout
 	reset      bool   // TCP reset instead of an orderly close
 	politeHost bool   // the host closes when it sees end of stream
+	buffers    bool   // the gateway is configured with socket send/receive buffer sizes (stage 10: host streaming, client not reading)
 }
 
 func (c c11Case) String() string {
-	st := []string{"before the handshake", "after the handshake", "after tunnel create", "after tunnel authorization", "after a refused channel (host unreachable)", "channel open, idle", "channel open, one payload exchanged", "host streaming to the client", "client streaming to the host", "both streaming"}[c.stage]
+	st := []string{"before the handshake", "after the handshake", "after tunnel create", "after tunnel authorization", "after a refused channel (host unreachable)", "channel open, idle", "channel open, one payload exchanged", "host streaming to the client", "client streaming to the host", "both streaming", "host streaming to a client that does not read (the gateway's writes towards it are blocked)"}[c.stage]
 	ca := map[string]string{"close": "CLOSE_CHANNEL", "order": "out-of-order packet", "frame": "unframeable bytes (length field 3)", "dropws": "TCP end of the websocket", "dropin": "TCP end of the legacy IN connection", "dropout": "TCP end of the legacy OUT connection"}[c.cause]
 	k := "close"
 	if c.reset {
@@ -83,7 +84,11 @@ func (c c11Case) String() string {
 	if c.politeHost {
 		h = "host closes on end of stream"
 	}
-	return fmt.Sprintf("transport=%s point=%q ending=%q tcp=%s %s", c.transport, st, ca, k, h)
+	bf := ""
+	if c.buffers {
+		bf = " gateway with sendbuf/receivebuf=65536"
+	}
+	return fmt.Sprintf("transport=%s point=%q ending=%q tcp=%s %s%s", c.transport, st, ca, k, h, bf)
 }
 
 type c11Obs struct {
@@ -214,7 +219,8 @@ func runC11Case(gws *gwServer, cs c11Case, host *hostListener, bound time.Durati
 		hc.c.Write([]byte("welcome"))
 		waitFor(2*time.Second, func() bool { return len(hc.received()) >= 5 })
 	}
-	if cs.stage == 7 || cs.stage == 9 {
+	blocked := make(chan struct{})
+	if cs.stage == 7 || cs.stage == 9 || cs.stage == 10 {
 		nstreams++
 		go func() {
 			defer func() { streamsDone <- struct{}{} }()
@@ -226,11 +232,24 @@ func runC11Case(gws *gwServer, cs c11Case, host *hostListener, bound time.Durati
 				default:
 				}
 				hc.c.SetWriteDeadline(time.Now().Add(50 * time.Millisecond))
-				if _, err := hc.c.Write(chunk); err != nil && !isTimeout(err) {
-					return
+				if _, err := hc.c.Write(chunk); err != nil {
+					if !isTimeout(err) {
+						return
+					}
+					select { // the pipe to the client is full
+					case <-blocked:
+					default:
+						close(blocked)
+					}
 				}
 			}
 		}()
+	}
+	if cs.stage == 10 {
+		select {
+		case <-blocked:
+		case <-time.After(4 * time.Second):
+		}
 	}
 	if cs.stage == 8 || cs.stage == 9 {
 		nstreams++
@@ -277,15 +296,18 @@ func runC11Case(gws *gwServer, cs c11Case, host *hostListener, bound time.Durati
 	// ---- observe, within the bound
 	eofCh := make(chan bool, 3)
 	waiting := 0
-	if ws != nil && !clientEnded["ws"] {
+	lateRead := cs.stage == 10 // the client keeps not reading: end-of-stream is looked for after the bound
+	if lateRead {
+		// nothing
+	} else if ws != nil && !clientEnded["ws"] {
 		waiting++
 		go func() { eofCh <- sawEOF(ws.c, ws.br, bound) }()
 	}
-	if in != nil && !clientEnded["in"] {
+	if !lateRead && in != nil && !clientEnded["in"] {
 		waiting++
 		go func() { eofCh <- sawEOF(in, nil, bound) }()
 	}
-	if out != nil && !clientEnded["out"] {
+	if !lateRead && out != nil && !clientEnded["out"] {
 		waiting++
 		go func() { eofCh <- sawEOF(out, outBr, bound) }()
 	}
@@ -325,6 +347,18 @@ func runC11Case(gws *gwServer, cs c11Case, host *hostListener, bound time.Durati
 		return n == 0 && protocol.VerifRegistrySize() == 0 && protocol.VerifCacheItems() == 0 &&
 			gaugeValue("rdpgw_websocket_connections") == 0 && gaugeValue("rdpgw_legacy_connections") == 0
 	})
+	if lateRead {
+		// now the client reads: what is left in the pipe, then the end of stream
+		if ws != nil && !clientEnded["ws"] && !sawEOF(ws.c, ws.br, time.Second) {
+			o.clientEOF = false
+		}
+		if in != nil && !clientEnded["in"] && !sawEOF(in, nil, time.Second) {
+			o.clientEOF = false
+		}
+		if out != nil && !clientEnded["out"] && !sawEOF(out, outBr, time.Second) {
+			o.clientEOF = false
+		}
+	}
 	o.goroutines, o.gdump = gwGoroutines()
 	o.registry = protocol.VerifRegistrySize()
 	o.cache = protocol.VerifCacheItems()
@@ -371,8 +405,11 @@ func runC11(r *Run) {
 		if tr == "legacy" {
 			causes = []string{"close", "order", "frame", "dropin", "dropout"}
 		}
-		for stage := 0; stage <= 9; stage++ {
+		for stage := 0; stage <= 10; stage++ {
 			for _, ca := range causes {
+				if stage == 10 && ca != "dropws" && ca != "dropin" && ca != "dropout" {
+					continue // with the pipe full the other endings need the client to read first
+				}
 				resets := []bool{false}
 				if strings.HasPrefix(ca, "drop") {
 					resets = []bool{false, true}
@@ -389,6 +426,15 @@ func runC11(r *Run) {
 					}
 				}
 			}
+		}
+	}
+	// the same over a gateway configured with socket buffer sizes (websocket only: the legacy
+	// handlers do not tune the socket)
+	gwsBuf := startGateway(&protocol.Gateway{SendBuf: 65536, ReceiveBuf: 65536})
+	defer gwsBuf.close()
+	for _, stage := range []int{0, 3, 6} {
+		for _, ca := range []string{"close", "order", "frame", "dropws"} {
+			cases = append(cases, c11Case{transport: "ws", stage: stage, cause: ca, buffers: true})
 		}
 	}
 	reps := r.N(1, 6)
@@ -436,7 +482,11 @@ func runC11(r *Run) {
 				continue
 			}
 			r.Breadcrumb(cs.String())
-			o := runC11Case(gws, cs, host, bound)
+			g := gws
+			if cs.buffers {
+				g = gwsBuf
+			}
+			o := runC11Case(g, cs, host, bound)
 			if o.inconclusive != "" {
 				r.Inconclusive()
 				continue
